@@ -1905,7 +1905,7 @@ def admin_bcb_monitor(chk, prop, keyhex, reps):
             rcv.ctx.sec_assoc.append(SecAssociation(src_pat=re.compile('.*'), dst_pat=re.compile('.*'), tgt_blk_types=[1], templates=[sop]))
             ctr = BundleContainer()
             ctr.bundle.primary = PrimaryBlock(bundle_flags=0x20000 | 0x4000 | (0x40 if rep % 2 else 0), destination='dtn://dst/svc',
-                                              report_to='dtn://node/rpt', crc_type=rng.choice([0, 1, 2]), lifetime=1000)
+                                              report_to='dtn://node/', crc_type=rng.choice([0, 1, 2]), lifetime=1000)
             ctr.bundle.blocks = [CanonicalBlock(type_code=1, block_num=1, crc_type=rng.choice([0, 1, 2]), btsd=b'please report')]
             data = Sender({}, 'none', rng=rng).send(ctr)
             out = rcv.feed(data)
@@ -1963,10 +1963,58 @@ def admin_bcb_monitor(chk, prop, keyhex, reps):
                     chk.violation('C16:plaintext-run-on-wire', 'a run of the administrative record appears in the payload block data', replay)
                 else:
                     chk.count('admin-bcb:%s:ciphertext-on-wire-and-recoverable' % mode)
-                # the implementation's own receiver (counted, not judged: see report)
-                o2 = Receiver(keys, accept=True, node_id='dtn://node/').feed(rpt)
-                chk.count('admin-bcb:implementation-receiver:%s' % ('delivered' if o2.delivered else
-                                                                    'cannot-decode(%s)' % type(o2.escaped).__name__ if o2.escaped else 'rejected'))
+                # --- a second real agent holding the key, at the report-to node: must receive the report, verify its BCB and,
+                #     with acceptance, hand exactly the original record to the administrative handler
+                want = cbor2.loads(plain) if is_record(plain) else None
+                for accept in (True, False):
+                    r2 = Receiver(keys, accept=accept, node_id='dtn://node/')
+                    adm = r2.agent._app['admin']
+                    seen = []
+                    for k in list(adm._rec_type_map):
+                        if int(k) == 1:
+                            adm._rec_type_map[k] = lambda _ctr, msg: seen.append(msg)
+                    OBSERVER.install()
+                    OBSERVER.active = True
+                    o2 = r2.feed(rpt)
+                    OBSERVER.active = False
+                    outcomes = OBSERVER.take()
+                    rr = dict(replay, accept=accept, receiver='second agent dtn://node/ holding the key', observed=o2.summary(),
+                              target_outcomes=outcomes, handler_saw=repr(seen)[:200], record=plain.hex())
+                    chk.count('admin-bcb:second-agent:accept=%s' % accept)
+                    chk.case({'rpt2': rpt.hex(), 'accept': accept}, nontrivial=True)
+                    if o2.escaped is not None or o2.ctr is None:
+                        chk.violation('%s:encrypted-admin-record-not-received' % prop,
+                                      'an administrative-record bundle whose payload is under a BCB cannot be received: %s escapes before the receive chain runs'
+                                      % type(o2.escaped).__name__, rr)
+                        continue
+                    if not o2.delivered or (o2.actions and 'delete' in o2.actions):
+                        chk.violation('%s:encrypted-admin-record-not-received' % prop,
+                                      'encrypted administrative record rejected by a receiver holding the key', rr)
+                        continue
+                    if not any(o == 'ok' and t == 1 for (_s, t, o) in outcomes):
+                        chk.violation('%s:encrypted-admin-record-bcb-not-verified' % prop, 'delivered without the BCB over the payload being verified', rr)
+                        continue
+                    got = {b[1]: b for b in o2.delivered_blocks}
+                    if accept:
+                        if got[1][2] != plain or [b for b in o2.delivered_blocks if b[0] == 12]:
+                            chk.violation('C16:plaintext-not-recovered', 'acceptance: payload of the administrative bundle is not the original record / BCB not removed', rr)
+                        elif want is None or seen != [want[1]]:
+                            chk.violation('%s:decrypted-admin-record-not-handled' % prop,
+                                          'the administrative handler did not receive exactly the original status report', rr)
+                        else:
+                            chk.count('admin-bcb:second-agent:record-handled')
+                    elif got[1][2] != wire:
+                        chk.violation('C16:target-changed-without-acceptance', 'target rewritten although acceptance is off', rr)
+
+def plain_status_report(rng, crc=None):
+    """ An (unsecured) status report produced by a real agent (node dtn://rptr/), independently decoded. """
+    rcv = Receiver({}, accept=False, node_id='dtn://rptr/')
+    ctr = BundleContainer()
+    ctr.bundle.primary = PrimaryBlock(bundle_flags=0x20000 | 0x4000, destination='dtn://dst/svc', report_to='dtn://node/',
+                                      crc_type=rng.choice([0, 1, 2]) if crc is None else crc, lifetime=1000)
+    ctr.bundle.blocks = [CanonicalBlock(type_code=1, block_num=1, crc_type=1, btsd=b'please report')]
+    rcv.feed(Sender({}, 'none', rng=rng).send(ctr))
+    return IBundle(rcv.cl.sent[0])
 
 
 def json_scope(scope):
